@@ -14,6 +14,7 @@ void cpps_set_counter(void *h, uint64_t n);
 int cpps_encrypt(void *h, unsigned char *c, const unsigned char *m, size_t len, const unsigned char *ad, size_t adlen);
 int cpps_decrypt(void *h, unsigned char *m, const unsigned char *c, size_t len, const unsigned char *ad, size_t adlen);
 int cpps_encrypt_ba(void *h, unsigned char *c, const unsigned char *m, size_t len, const unsigned char *ad, size_t adlen, int form);
+void cpps_consume_shared_ba(void *h, unsigned char *out, const void *shared);
 void *cpps_ba_new(const unsigned char *d, size_t n);
 int cpps_decrypt_shared_ba(void *h, unsigned char *m, const void *shared_ct, const unsigned char *ad, size_t adlen, int form);
 int cpps_decrypt_ba(void *h, unsigned char *m, const unsigned char *c, size_t len, const unsigned char *ad, size_t adlen, int form);
